@@ -45,9 +45,10 @@ func run(r *ev.Run) {
 	specs := allSpecs()
 	nHist := r.Pick(4, 320)
 
-	// The buffer's Flush of an empty buffer is probed first: a backing store whose
-	// BeginBatch takes a resource must not be left holding it.
-	flushLeaks := probeFlushEmpty(r, root)
+	// Flush of an empty buffer is probed first (a backing store whose BeginBatch takes a
+	// resource must not be left holding it): a wedged store is reported once there, and the
+	// histories over that combination are then skipped instead of each running into the watchdog.
+	flushHangs := probeFlushEmpty(r, root)
 
 	var wg sync.WaitGroup
 	sem := make(chan struct{}, 16)
@@ -58,7 +59,10 @@ func run(r *ev.Run) {
 			defer wg.Done()
 			sem <- struct{}{}
 			defer func() { <-sem }()
-			avoidEmptyFlush := sp.buffered && flushLeaks[sp.base]
+			if sp.buffered && flushHangs[sp.base] {
+				r.Inconclusive(fmt.Sprintf("%s not exercised: Flush of an empty buffer over %s wedges the store (see hang/buffer-%s.flush-empty)", sp.name, sp.base, sp.base))
+				return
+			}
 			n := nHist
 			if r.Thorough() && sp.base == "sqlite" {
 				n = nHist * 5 / 8 // sqlite is ~10x slower per op
@@ -69,7 +73,7 @@ func run(r *ev.Run) {
 					continue
 				}
 				ok := ev.WithTimeout(time.Duration(r.Pick(240, 900))*time.Second, func() {
-					runHistory(r, root, id, sp, h, avoidEmptyFlush)
+					runHistory(r, root, id, sp, h)
 				})
 				if !ok {
 					r.Inconclusive(fmt.Sprintf("history %s did not finish (watchdog); remaining histories of %s skipped", id, sp.name))
